@@ -14,3 +14,5 @@ import Norad.Props.C09
 #print axioms C09.loaded_store_keys_safe
 #print axioms C09.loaded_font_safePaths
 #print axioms C09.save_frame_loaded
+#print axioms C09.plan_runs_to_completion
+#print axioms C09.saved_tree_determined_by_font
